@@ -36,7 +36,12 @@ def worker(job):
     data = it.get_module(DATA_MOD)
     sp = {2: {0: (2, 4), 1: (4, 2), 2: (4, 8), 3: (8, 16)}[down], 3: (2, 2, 2) if down < 2 else (2 ** down,) * 3}[D]
     cfg = dict(D=D, T=T, past=p, future=f, dt=dt, skip=s, downsample=down, dynamic={tname(tuple(t)): c for t, c in sig}, constants={tname(tuple(t)): c for t, c in consts}, batched=batched)
-    Bt = 2 if batched else None
+    # number of trajectories: 2 by default, or the given count (chunked / tiled implementations change behaviour at sizes
+    # like 32 or 64, so counts just above such thresholds are swept with tiny images)
+    Bt = (2 if batched is True else int(batched)) if batched else None
+    if Bt and Bt > 8:
+        sp = {2: (2, 2), 3: (2, 2, 2)}[D] if down == 0 else sp
+    cfg["trajectories"] = Bt
     lead = (Bt,) if batched else ()
     dyn_blocks = {tuple(t): block("d", tuple(t), lead + (c * T,), sp, D) for t, c in sig}
     const_blocks = {tuple(t): block("k", tuple(t), lead + (c,), sp, D) for t, c in consts}
@@ -190,6 +195,12 @@ def run(ctx):
             for (p, f, dt, s_) in ((1, 1, 1, 0), (2, 1, 2, 1)):
                 for sig, consts in (sigs[:2] if (ctx.thorough() or not batched) else sigs[:1]):
                     jobs.append((ctx.repo, 2, 5, p, f, dt, s_, down, sig, consts, batched))
+    # many trajectories (the batched variant must stay "per trajectory, stacked trajectory-major" at every count)
+    for Bt in ((1, 3, 33, 65) if not ctx.thorough() else (1, 3, 17, 31, 32, 33, 40, 64, 65, 100, 129)):
+        for (T, p, f, dt, s_) in ((4, 1, 1, 1, 0), (5, 2, 1, 1, 1)) if (ctx.thorough() or Bt in (33, 65)) else ((4, 1, 1, 1, 0),):
+            jobs.append((ctx.repo, 2, T, p, f, dt, s_, 0, sigs[0][0], sigs[0][1], Bt))
+            if Bt <= 40:
+                jobs.append((ctx.repo, 2, T, p, f, dt, s_, 0, sigs[1][0], sigs[1][1], Bt))
     for job, r in ctx.pairs(worker, jobs):
         cfg = r["cfg"]
         nontriv = cfg["dt"] > 1 or cfg["skip"] > 0 or cfg["constants"] or len(cfg["dynamic"]) > 1
